@@ -30,17 +30,20 @@ def num(v):
     return st._val_lean(v)
 
 
-def tie(ext_name, ext_src, variables, model_term, unfolds=(), tactic=None):
+def tie(ext_name, ext_src, variables, model_term, unfolds=(), tactic=None, hyps=()):
+    """`hyps`: Lean propositions over the variables (what validated inputs guarantee), added as
+    hypotheses `hv0 hv1 ...` of the tie"""
     args = " ".join(variables)
     unf = " ".join([ext_name] + list(unfolds))
     tac = tactic or f"unfold {unf}\n  se_close"
+    hs = "".join(f" (hv{i} : {h})" for i, h in enumerate(hyps))
     return (f"{ext_src}\n"
-            f"theorem {ext_name}_tie ({args} : Rat) : {ext_name} {args} = {model_term} := by\n"
+            f"theorem {ext_name}_tie ({args} : Rat){hs} : {ext_name} {args} = {model_term} := by\n"
             f"  {tac}\n")
 
 
 def sym_tie(ctx, name, fn, variables, ret_type, model_term, leaf_ok, tactic=None, meta=None,
-            catch=(ValueError,)):
+            catch=(ValueError,), hyps=()):
     """ctx.sym_tie with custom leaf rendering: trace, emit, register `∀ vars, name vars = model_term`.
     A trace that fails (the stub no longer fits the code) is a broken obligation, never a crash."""
     from .leanio import InfraError
@@ -55,5 +58,5 @@ def sym_tie(ctx, name, fn, variables, ret_type, model_term, leaf_ok, tactic=None
                  extra=dict(meta or {}))
         return None
     ctx.symbolic_ties[name] = {"paths": n}
-    ctx.obligation(name, tie(name, src, variables, model_term, tactic=tactic), meta)
+    ctx.obligation(name, tie(name, src, variables, model_term, tactic=tactic, hyps=hyps), meta)
     return tree
